@@ -85,8 +85,17 @@ CHECKS.update({
         "DESIGN.md §5 C03"),
  "C05": bounded_only("generated valid documents x histories of set/add/delete are checked byte-wise against spans from an independent scanner and "
         "re-parsed;", "DESIGN.md §5 C05"),
- "C09": bounded_only("operation histories on Deb822 mappings from five kinds of starting state are compared with a reference list model after every step;",
-        "DESIGN.md §5 C09"),
+ "C09": dict(bounded_only("", "DESIGN.md §5 C09"),
+        text="The ordering machinery under Deb822 mappings is proved from the real AST of debian._util: every LinkedList operation "
+             "preserves a quantified doubly-linked-list invariant over an array heap and acts on the abstract node sequence as a list "
+             "insert / delete; every OrderedSet operation (add, remove, membership, length, order_first/last/before/after) keeps table "
+             "and list consistent and realises the reference list model (membership unchanged by re-ordering, the item at the stated "
+             "place, all other items in their relative order), raising KeyError / ValueError exactly in the stated cases without "
+             "modifying anything. The Deb822Dict layer on top (case-insensitive key objects, value dictionary, sort_fields, copy, "
+             "iteration) is decided by a bounded stand-in: operation histories on real Deb822 mappings from five kinds of starting "
+             "state against a reference list model.",
+        technique="contract-based deductive verification (heap as arrays, ghost sequence and position map, representation invariants; "
+                  "SMT, two back ends per obligation) + bounded stand-in (operation histories)"),
  "C10": bounded_only("generated documents with unique / duplicated names x histories of order_*, sort_fields, indexed and unindexed set/delete, "
         "insert/append are compared byte-wise and structurally with a reference model of field texts; every (name, i) is resolved;",
         "DESIGN.md §5 C10"),
